@@ -270,6 +270,8 @@ class Piece:
         text = self.orig_text
         if mode != "stub":
             text = self._strip_comments(text)
+        if mode == "verify":
+            text = self._toward_baseline(text)
         # T-MACRO: expand the repository's own single-arm macro_rules! at their call sites (pre-pass)
         if mode != "stub":
             text = self._expand_macros(text)
@@ -432,6 +434,63 @@ class Piece:
                                       "note": f"new helper `{it.name}` (absent from the baseline function list) inlined at its call"})
             text = text[:start] + exp + text[toks[kc].end:]
         raise Undecided("T-INLINE did not terminate")
+
+    # ---- T-CANON --------------------------------------------------------------------------------------------------------
+    def _toward_baseline(self, text):
+        """T-CANON (pre-pass): two spellings that mean the same - `for P in &X` / `for P in X.iter()` (`&mut X` / `X.iter_mut()`), and
+        `let N: T = E.collect();` / `let N = E.collect::<T>();` (the same for `parse`) - are brought to the spelling the recorded text of
+        the file uses, when (and only when) that makes the loop header / the statement token-identical to one of the recorded text.
+        The contracts' anchors and rewrite patterns were written against the recorded spelling."""
+        if os.environ.get("VERIF_NO_CANON"):
+            return text
+        rel = self.relpath.split("#")[0]
+        if _baseline_src is None:
+            _alpha_normalise(rel, "")
+        base = (_baseline_src or {}).get(rel)
+        if not base:
+            return text
+        if not hasattr(self.unit, "_base_norm"):
+            self.unit._base_norm = {}
+        if rel not in self.unit._base_norm:
+            self.unit._base_norm[rel] = " ".join(" ".join(t.text for t in lex(v)) for v in base.values())
+        base_norm = " " + self.unit._base_norm[rel] + " "
+
+        def norm(sx):
+            return " ".join(t.text for t in lex(sx))
+        edits = []
+        # loop headers
+        for m in re.finditer(r"\bfor\s+([^;{}]*?)\s+in\s+(&mut\s+|&)([A-Za-z_][\w.]*?)\s*\{", text):
+            cur = m.group(0)
+            alt = f"for {m.group(1)} in {m.group(3)}.{'iter_mut' if 'mut' in m.group(2) else 'iter'}() {{"
+            if (" " + norm(cur)) not in base_norm and (" " + norm(alt)) in base_norm:
+                edits.append((m.start(), m.end(), alt))
+        for m in re.finditer(r"\bfor\s+([^;{}]*?)\s+in\s+([A-Za-z_][\w.]*?)\.(iter|iter_mut)\(\)\s*\{", text):
+            cur = m.group(0)
+            alt = f"for {m.group(1)} in {'&mut ' if m.group(3) == 'iter_mut' else '&'}{m.group(2)} {{"
+            if (" " + norm(cur)) not in base_norm and (" " + norm(alt)) in base_norm:
+                edits.append((m.start(), m.end(), alt))
+        # collect / parse: turbofish <-> annotation
+        T_ = r"((?:[^<>;=]|<(?:[^<>;=]|<[^<>;=]*>)*>)+?)"
+        for m in re.finditer(r"\blet\s+(mut\s+)?(\w+)\s*=\s*([^;]*?)\.(collect|parse)::<" + T_ + r">\(\)\s*;", text, re.S):
+            cur = m.group(0)
+            alt = f"let {m.group(1) or ''}{m.group(2)}: {m.group(5)} = {m.group(3)}.{m.group(4)}();"
+            if (" " + norm(cur)) not in base_norm and (" " + norm(alt)) in base_norm:
+                edits.append((m.start(), m.end(), alt))
+        for m in re.finditer(r"\blet\s+(mut\s+)?(\w+)\s*:\s*" + T_ + r"\s*=\s*([^;]*?)\.(collect|parse)\(\)\s*;", text, re.S):
+            cur = m.group(0)
+            alt = f"let {m.group(1) or ''}{m.group(2)} = {m.group(4)}.{m.group(5)}::<{m.group(3).strip()}>();"
+            if (" " + norm(cur)) not in base_norm and (" " + norm(alt)) in base_norm:
+                edits.append((m.start(), m.end(), alt))
+        edits.sort()
+        out, last = [], -1
+        for e_ in edits:
+            if e_[0] >= last:
+                out.append(e_)
+                last = e_[1]
+        for a_, b_, alt in reversed(out):
+            self.rewrites_log.append({"rule": "T-CANON", "file": self.relpath, "item": self.spec, "from": text[a_:b_], "to": alt})
+            text = text[:a_] + alt + text[b_:]
+        return text
 
     # ---- T-COMB ---------------------------------------------------------------------------------------------------------
     COMB_METHODS = {"map", "and_then", "map_or", "map_or_else", "unwrap_or_else", "ok_or_else", "map_err", "or_else",
@@ -774,8 +833,9 @@ class Piece:
                     arm0 = j + 1
                     gi = next((i for i in range(arm0, k) if toks[i].text == "if"), None)
                     if gi is not None:
+                        # (the last guarded arm of the text first: in a chain `P if A => .., P if B => .., _ => ..` each merge then
+                        # leaves an unguarded arm behind the guarded arm before it)
                         found = (k, arm0, gi)
-                        break
             if found is None:
                 return text
             k, arm0, gi = found
@@ -1953,6 +2013,11 @@ class Piece:
                 if fn.name in self.unit.loopless and len(ms) == 0:
                     continue   # the text the rule was for (a loop's) is gone with the loops; whatever replaced it is verified as it stands
                 raise Undecided(f"{fn.name}: rewrite {rule} pattern matched {len(ms)} times, expected {want}")
+            # a rule that applies "wherever its pattern occurs": how many times it applied is recorded; another number than when the contract
+            # was written means that code the contract counted on being rewritten (an idiom replaced by its model, a loop by a helper) now
+            # stands as it is - a failure in the function is then not a verdict
+            rkey_ = f"{self.relpath}::{self.spec}::{fn.name}"
+            self.unit.rwcounts.setdefault(rkey_, []).append(len(ms))
             for m in ms:
                 new = m.expand(repl) if isinstance(repl, str) else repl(m)
                 self._add(wstart + m.start(), wstart + m.end(), new, rule)
@@ -2102,7 +2167,18 @@ class Piece:
         for k in range(self.item.k0, self.item.k1):
             if toks[k].text == "env" and toks[k + 1].text == "!" and toks[k + 2].text == "(":
                 kc = match_close(toks, k + 2)
-                self._add(toks[k].start, toks[kc].end, '"<build-time constant>"', "T-ENV", order=-99)
+                val = '"<build-time constant>"'
+                # a default the crate's build script sets when the variable is absent at build time (`set_env_var_if_absent!("NAME", "VALUE")`):
+                # the shipped default is that literal
+                if kc == k + 4 and toks[k + 3].kind == "lit" and toks[k + 3].text.startswith('"'):
+                    try:
+                        bs = open(os.path.join(REPO, self.unit.root, "build.rs"), encoding="utf-8").read()
+                        mb = re.search(r"set_env_var_if_absent!\(\s*" + re.escape(toks[k + 3].text) + r"\s*,\s*(\"(?:[^\"\\]|\\.)*\")\s*,?\s*\)", bs)
+                        if mb:
+                            val = mb.group(1)
+                    except OSError:
+                        pass
+                self._add(toks[k].start, toks[kc].end, val, "T-ENV", order=-99)
 
     def render(self):
         if getattr(self, "_rendered", None) is not None:
@@ -2362,8 +2438,15 @@ class Unit:
             self.baseline_opaque = _json2.load(open(os.path.join(VERIF, "baseline_shapes.json"))).get("__opaque__", {}).get(name)
         except Exception:
             self.baseline_opaque = None
+        self.rwcounts = {}      # verified function -> how many times each of its rewrite rules applied, in the order of the rules
+        try:
+            import json as _json4
+            self.baseline_rwcounts = _json4.load(open(os.path.join(VERIF, "baseline_shapes.json"))).get("__rewrites__", {}).get(name)
+        except Exception:
+            self.baseline_rwcounts = None
         self.bindsigs = {}      # verified function -> {name used by its contract: number of bindings of that name in the function}
         self.rebound = set()    # functions in which such a name is bound another number of times than when the contract was written
+        self.rewired = set()    # functions in which a rewrite rule applied another number of times than when the contract was written
         try:
             import json as _json3
             self.baseline_binders = _json3.load(open(os.path.join(VERIF, "baseline_shapes.json"))).get("__binders__", {}).get(name)
@@ -2720,6 +2803,12 @@ class Unit:
                             # the names a contract uses, and how many times each is bound in the function (parameter, `let`, pattern):
                             # when that differs from what was recorded, a name in the contract may denote another variable than the
                             # one it was written for (a shadowing removed or introduced) - a failure is then not a verdict
+                            for nm_ in (p.fnspecs or {}):
+                                rk_ = f"{okey_}::{nm_}"
+                                wantr_ = (self.baseline_rwcounts or {}).get(rk_)
+                                if wantr_ is not None and self.rwcounts.get(rk_, []) != wantr_:
+                                    self.rebound.add(nm_)
+                                    self.rewired.add(nm_)
                             for nm_, fs_ in (p.fnspecs or {}).items():
                                 bkey_ = f"{okey_}::{nm_}"
                                 self.bindsigs[bkey_] = binder_counts(p, nm_, fs_)
